@@ -29,6 +29,11 @@ type c10RootCase struct {
 	Tag  string   `json:"tag,omitempty"`
 	Site string   `json:"site,omitempty"`
 	Note string   `json:"note,omitempty"`
+	// Expect: regression corpus cases carry the recorded RFC value (checked against out[0])
+	Expect string `json:"expect,omitempty"`
+	// hello randoms of the connection, for the "not computable from the hellos" monitor
+	CR string `json:"cr,omitempty"`
+	SR string `json:"sr,omitempty"`
 }
 
 func c10Emit(o *vOut, fn, h int, tag, site, note string, in [][]byte, n []uint64, out [][]byte) {
@@ -57,12 +62,77 @@ func c10HashCode(id CipherSuiteID) int {
 
 var c10Labels = []string{"EXTRACTOR-dtls_srtp", "EXPORTER-verif", "EXPORTER_c10 test label"} //nolint:gochecknoglobals
 
+const c10Site13 = "state.go ExportKeyingMaterial (DTLS 1.3)"
+
+// c10Export13 calls ExportKeyingMaterial on a constructed DTLS 1.3 state and emits the RFC 8446 7.5
+// comparison (fn 61) plus the negative monitor (fn 63: the output must not be the value computable
+// from the two hello randoms alone).
+func c10Export13(
+	t *testing.T, out *vOut, tag, expect string, id CipherSuiteID, em []byte, label string, ln int, lr, rr [32]byte,
+	isClient bool,
+) {
+	t.Helper()
+	s := &State{
+		localEpoch: 3, remoteEpoch: 3, CipherSuiteID: id, isClient: isClient,
+		version: protocol.Version1_3, exporterSecret: em,
+	}
+	s.localRandom.UnmarshalFixed(lr)
+	s.remoteRandom.UnmarshalFixed(rr)
+	got, err := s.ExportKeyingMaterial(label, nil, ln)
+	if err != nil {
+		t.Fatalf("ExportKeyingMaterial(1.3, %v): %v", id, err)
+	}
+	lrb, rrb := s.localRandom.MarshalFixed(), s.remoteRandom.MarshalFixed()
+	cr, sr := lrb[:], rrb[:]
+	if !isClient {
+		cr, sr = rrb[:], lrb[:]
+	}
+	h := c10HashCode(id)
+	c := c10RootCase{
+		Fn: 61, H: h, Tag: tag, Site: c10Site13, Expect: expect, N: []uint64{uint64(ln)}, //nolint:gosec
+		In: []string{vHex(em), vHex([]byte(label))}, Out: []string{vHex(got)}, CR: vHex(cr), SR: vHex(sr),
+	}
+	out.emit(c)
+	if ln > 0 {
+		c10Emit(out, 63, h, "exporter output not computable from the hello randoms", c10Site13,
+			"fn 63 is a negative monitor: out must differ from P_hash(\"\", label || client_random || server_random)",
+			[][]byte{[]byte(label), cr, sr}, []uint64{uint64(ln)}, [][]byte{got}) //nolint:gosec
+	}
+}
+
 func TestVerifC10ExporterUnit(t *testing.T) {
 	r := newVRand(vSeed() ^ 0xc1060)
 	out := newVOut(t)
 	per := 3
 	if vIsThorough() {
 		per = 100
+	}
+	// regression corpus, runs first: the exporter_master_secret / label / length recorded when the
+	// DTLS 1.3 exporter was still keyed with the empty secret; the output must be the recorded RFC value
+	{
+		em, _ := hex.DecodeString("ebc07115e72f9bd0683f35445c2ec564b06c5f34a2db6db074221a3cfca3b1b1")
+		var lr, rr [32]byte
+		copy(lr[:], r.bytes(32))
+		copy(rr[:], r.bytes(32))
+		c10Export13(t, out, "regression: State.ExportKeyingMaterial (DTLS 1.3, RFC 8446 7.5)",
+			"653b0d1d23eb4b850763b14fe2903356ca35eae7cd0387aefd1e8ef4801d57b0c8ba1c2677756b9530602078796fd31fb137a3e2f66d95900979f20c",
+			CipherSuiteID(ciphersuite.TLS_AES_128_GCM_SHA256), em, "EXTRACTOR-dtls_srtp", 60, lr, rr, true)
+	}
+	for _, id := range []ciphersuite.ID{
+		ciphersuite.TLS_AES_128_GCM_SHA256, ciphersuite.TLS_AES_256_GCM_SHA384, ciphersuite.TLS_CHACHA20_POLY1305_SHA256,
+	} {
+		hl := 32
+		if id == ciphersuite.TLS_AES_256_GCM_SHA384 {
+			hl = 48
+		}
+		for k := 0; k < 2*per; k++ {
+			var lr, rr [32]byte
+			copy(lr[:], r.bytes(32))
+			copy(rr[:], r.bytes(32))
+			ln := []int{60, 32, 1 + r.intn(100), 0}[r.intn(4)]
+			c10Export13(t, out, "State.ExportKeyingMaterial (DTLS 1.3, RFC 8446 7.5)", "", CipherSuiteID(id),
+				r.bytes(hl), c10Labels[r.intn(len(c10Labels))], ln, lr, rr, k%2 == 0)
+		}
 	}
 	for id := 0; id <= 0xffff; id++ {
 		cid := ciphersuite.ID(id)
@@ -111,7 +181,6 @@ func TestVerifC10ExporterE2E(t *testing.T) {
 	if vIsThorough() {
 		reps = 10
 	}
-	const site13 = "state.go ExportKeyingMaterial (DTLS 1.3)"
 	for rep := 0; rep < reps; rep++ {
 		for _, v13 := range []bool{false, true} {
 			vBubble(t, func(t *testing.T) {
@@ -155,12 +224,15 @@ func TestVerifC10ExporterE2E(t *testing.T) {
 					if len(em) == 0 {
 						t.Fatal("no exporter master secret on an established DTLS 1.3 connection")
 					}
-					note := "DTLS 1.3 connection: fn 61 compares the exported bytes with RFC 8446 7.5 " +
-						"(keyed by the connection's exporter_master_secret, input 0); fn 62 with what state.go " +
-						"computes: TLS 1.2 P_hash keyed with the EMPTY secret over label + the two public hello randoms"
-					c10Emit(out, 61, h, "State.ExportKeyingMaterial (DTLS 1.3, RFC 8446 7.5)", site13, note,
-						[][]byte{em, []byte(label)}, []uint64{ln}, [][]byte{ce})
-					c10Emit(out, 62, h, "State.ExportKeyingMaterial (DTLS 1.3, as coded)", site13, note,
+					c := c10RootCase{
+						Fn: 61, H: h, Tag: "State.ExportKeyingMaterial (DTLS 1.3 connection, RFC 8446 7.5)",
+						Site: c10Site13, N: []uint64{ln},
+						In: []string{vHex(em), vHex([]byte(label))}, Out: []string{vHex(ce)},
+						CR: vHex(crb[:]), SR: vHex(srb[:]),
+					}
+					out.emit(c)
+					c10Emit(out, 63, h, "exporter output not computable from the hello randoms", c10Site13,
+						"fn 63 is a negative monitor: out must differ from P_hash(\"\", label || client_random || server_random)",
 						[][]byte{[]byte(label), crb[:], srb[:]}, []uint64{ln}, [][]byte{ce})
 				}
 			})
@@ -269,20 +341,17 @@ func TestVerifC10Live(t *testing.T) {
 							plain := payload
 							var cid []byte
 							hs := 13
+							fn, tag, site, note := 73, "live record "+v.suite.String(), "", ""
 							if ri.CT == int(protocol.ContentTypeConnectionID) {
+								tag += " cid"
 								cid = cidIn
 								hs += len(cid)
 								plain = append(bytes.Clone(payload), byte(protocol.ContentTypeApplicationData))
 							}
 							var eiv []byte
-							fn, tag, site, note := 73, "live record "+v.suite.String(), "", ""
 							sp := ciphersuite.ForID(ciphersuite.ID(v.suite), nil)
 							if strings.Contains(sp.String(), "_CBC_") {
 								eiv = ri.Raw[hs : hs+16]
-								if cid != nil {
-									fn, tag = 74, tag+" cid (MAC as coded)"
-									note = "CBC + connection ID: compared with the MAC input cbc.go computes (F8), see the suite leg"
-								}
 							}
 							cl := uint64(0)
 							if from == "client" {
